@@ -42,6 +42,10 @@ pub struct Case {
   /// HANDSHAKE_IVL of the listening socket (None = the default)
   #[serde(default)]
   pub handshake_ivl: Option<i32>,
+  /// how many tasks are parked in recv() / recv_multipart() on clones of one idle socket
+  /// (0 = one, for replay files written before the field existed)
+  #[serde(default)]
+  pub blocked_recv_tasks: u8,
 }
 
 fn case_strategy() -> impl Strategy<Value = Case> + Clone {
@@ -52,9 +56,9 @@ fn case_strategy() -> impl Strategy<Value = Case> + Clone {
     0u8..50,
     prop::sample::select(vec![Ending::Term, Ending::CloseAllThenTerm, Ending::CloseOneThenTerm, Ending::DropHandlesThenTerm, Ending::ConcurrentCloseAndTerm]),
     prop::sample::select(vec![0i32, 0, 50, 500]),
-    prop::sample::select(vec![None, Some(5000)]),
+    (prop::sample::select(vec![None, Some(5000)]), prop::sample::select(vec![1u8, 2, 3, 5, 8])),
   )
-    .prop_map(|(transport, rt, (a, b, c, d, e, f), delay_ms, ending, linger, handshake_ivl)| Case {
+    .prop_map(|(transport, rt, (a, b, c, d, e, f), delay_ms, ending, linger, (handshake_ivl, blocked_recv_tasks))| Case {
       transport,
       rt,
       dead_port_connector: a,
@@ -67,6 +71,7 @@ fn case_strategy() -> impl Strategy<Value = Case> + Clone {
       ending,
       linger,
       handshake_ivl,
+      blocked_recv_tasks,
     })
 }
 
@@ -131,13 +136,15 @@ async fn body(c: &Case) -> L2 {
   if c.blocked_recv {
     // a second PULL that never gets anything
     if let Ok((p2, _)) = stack::bound(&ctx, "PULL", Transport::Inproc, &common).await {
-      let p2c = p2.clone();
-      task_names.push("recv blocked on an empty socket");
-      user_tasks.push(tokio::spawn(async move {
-        let t = Instant::now();
-        let r = p2c.recv().await;
-        (t.elapsed(), r.is_ok(), "blocked_recv")
-      }));
+      for k in 0..c.blocked_recv_tasks.max(1) {
+        let p2c = p2.clone();
+        task_names.push("recv blocked on an empty socket");
+        user_tasks.push(tokio::spawn(async move {
+          let t = Instant::now();
+          let ok = if k % 2 == 0 { p2c.recv().await.is_ok() } else { p2c.recv_multipart().await.is_ok() };
+          (t.elapsed(), ok, "blocked_recv")
+        }));
+      }
       extra_sockets.push(p2);
     }
   }
@@ -395,6 +402,7 @@ pub fn run(run: &mut Run) {
     rec.label(c.transport.name());
     rec.label_if(c.blocked_send, "blocked_send");
     rec.label_if(c.blocked_recv, "blocked_recv");
+    rec.label_if(c.blocked_recv && c.blocked_recv_tasks >= 3, "three_or_more_parked_receivers");
     rec.label_if(c.dead_port_connector, "dead_port_connector");
     rec.label_if(c.stalled_handshake_peer, "stalled_handshake_peer");
     rec.label(match c.ending {
